@@ -274,9 +274,9 @@ pub fn build(quick: bool) -> Vec<Scenario> {
         v.push(mk_raw(off, 1, 2, &["PP"]).bound(d));
         v.push(mk_raw(off, 3, 0, &["B", "P"]).bound(d));
     }
+    // ABA: the owner's long run costs choice points, not deviations (no fairness rotation, no post points)
+    v.push(Scenario::new("C04", "aba", "aba.recycle.stalled_stealer", Arc::new(aba)).fine().post_points(false).alloc(alloc::RECYCLE).fair(1_000_000).bound(2).shards(12).horizon(8_000));
     if !quick {
-        // the owner's long run costs choice points, not deviations
-        v.push(Scenario::new("C04", "aba", "aba.recycle.stalled_stealer", Arc::new(aba)).fine().post_points(false).alloc(alloc::RECYCLE).bound(2).shards(12).horizon(8_000));
         for off in [B - 2, B - 1] {
             v.push(mk_ls(off, 4, "OUOU", 2, 1).bound(2));
             v.push(mk_ls(off, 2, "OO", 1, 1).bound(4));
